@@ -106,7 +106,7 @@ func feedOf(i int) jrn.Feed {
 	return f
 }
 
-func isGood(kind string) bool { return kind == "good" || kind == "goodT" || kind == "goodR" }
+func isGood(kind string) bool { return kind == "good" || kind == "goodT" || kind == "goodR" || kind == "goodL" }
 
 // goodBytes is the content of a good file. goodT files all carry the same header timestamp; goodR files are the same
 // message with the entity fields serialised before the header field.
@@ -191,6 +191,18 @@ func materialise(dir string, entries []Entry, onlyGood bool) (vanish []string, e
 		switch e.Kind {
 		case "good", "goodT", "goodR":
 			err = os.WriteFile(p, good, 0o644)
+		case "goodL": // the snapshot lives elsewhere; the directory holds a symbolic link to it
+			if onlyGood { // the reference directory of good files holds plain files
+				err = os.WriteFile(p, good, 0o644)
+				break
+			}
+			store := dir + ".store"
+			if err = os.MkdirAll(store, 0o755); err == nil {
+				target := filepath.Join(store, fmt.Sprintf("blob-%d", e.Name))
+				if err = os.WriteFile(target, good, 0o644); err == nil {
+					err = os.Symlink(target, p)
+				}
+			}
 		case "vanish":
 			err = os.WriteFile(p, good, 0o644)
 			vanish = append(vanish, p)
@@ -264,6 +276,7 @@ func Run(id string, c Case, scratch string, w *abs.Writer) (crashes []jrn.Crash,
 		dir = filepath.Join(scratch, dirNames[n%len(dirNames)])
 	}
 	defer os.RemoveAll(dir)
+	defer os.RemoveAll(dir + ".store")
 	vanish, err := materialise(dir, c.Entries, false)
 	if err != nil {
 		return nil, err
